@@ -151,9 +151,8 @@ PROPS = {
     "C09": {
         "engines": [("c09", "main")],
         "lean": ["PgsVerif.Props.C09"],
-        "category": "exploration",
         "rule": "curated worlds + seeded random protodesc-valid worlds (see C01: 1-5 files, import DAGs with public re-exports and unused imports, shared/nested/empty packages, both proto2 spellings and proto3, nesting depth <= 4, map entries interleaved among nested types, real/synthetic oneofs, all scalar kinds x labels x map keys, enum/message references to same file / direct imports / publicly re-exported files, recursion, extensions at file and message scope, services, SourceCodeInfo); observed: per message field: HasPresence/Required/InOneOf/InRealOneOf/HasOptionalKeyword plus protoreflect's HasPresence/Cardinality/ContainingOneof().IsSynthetic on the same descriptors; per oneof IsSynthetic (+protoreflect); per message IsMapEntry (+protoreflect) and the four listings; per file Syntax; non-trivial = world with at least one message (C04: at least 2 files)",
-        "level_text": "THEOREMS PENDING (level exploration until proved): executable Lean model of ast.go's hydration and of the accessors compared with the real AST on every generated world; Phi_C09: presence iff in a oneof / singular message / singular proto2 / proto3-optional; required; real-vs-synthetic membership; synthetic oneof iff single proto3-optional member; listings partition the fields; proto2 spelled or omitted treated alike; pgs = protoreflect on every answer (HasOptionalKeyword is compared with the model only: protobuf defines it differently for proto2 oneof members and the property does not mention it) - evaluated on every observed AST.",
+        "level_text": "Theorems for every file / message / field satisfying the side conditions descriptor validation guarantees (FieldOK: syntax in {'', proto2, proto3}, oneof members optional, proto3_optional only in proto3 inside a oneof, no groups, required only in proto2 - a decidable checker of these conditions is evaluated by the driver on every generated world, fieldOK_of_check): C09_presence (pgs HasPresence = protobuf-go v1.23.0 HasPresence = in a oneof / singular message / singular proto2 / proto3-optional), C09_required, C09_synthetic (pgs IsSynthetic = protobuf IsSynthetic = single proto3-optional member), C09_in_real_oneof, C09_proto2_spelling. The partition of the four listings is checked by Phi and the correspondence run (not a theorem).",
         "level_note": "Trusted: protodesc.NewFiles defines 'valid request'; descriptor pointer identity as entity identity; protoreflect (protobuf-go v1.23.0) as the reference for 'protobuf's own semantics'.",
     },
     "C07": {
@@ -182,17 +181,15 @@ PROPS = {
     "C16": {
         "engines": [("c16", "main")],
         "lean": ["PgsVerif.Props.C16"],
-        "category": "exploration",
         "rule": "collision probe world (getter collisions in both declaration orders, repeated protected names, oneof wrappers colliding once / twice / with a map entry / with an enum, oneof names colliding with fields) + seeded random protodesc-valid worlds whose identifiers are drawn per scope from adversarial pools (leading / trailing / doubled underscores, digits, mixed case, names equal to generated method names, foo / get_foo / get_get_foo, oneof members named like nested types), nesting depth <= 4, every file with a go_package; for every message, enum, value, field, oneof, oneof wrapper, service and method: pgsgo's prediction, protogen v1.23.0's name (the pinned protoc-gen-go run in-process) and whether the identifier is declared in the source internal_gengo.GenerateFile emits (parsed with go/parser); non-trivial = at least one message",
-        "level_text": "THEOREMS PENDING (level exploration until proved): two Lean transcriptions - pgsgo (camelCase, Name dispatch, joinChild, uniqueNames, OneofOption) and protoc-gen-go v1.23.0 (strs.GoCamelCase on dotted nested names, makeNameUnique, wrapper conflict loop) - each compared with its real counterpart; Phi_C16: prediction = protogen name = identifier declared in the generated source, for every entity.",
+        "level_text": "Theorems over all byte strings: C16_camelCase_eq_GoCamelCase (pgsgo's camelCase = protobuf-go v1.23.0 strs.GoCamelCase on every name without a dot), C16_joinChild and C16_nested_name (pgsgo's chain of joinChild from the outermost message = GoCamelCase of the dotted nested name, at any depth, including the lower-case-initial no-underscore rule and '_' -> 'X'), C16_unique_names (both sides resolve field / oneof names by the same makeNameUnique algorithm over their camel-casing). Enum values, wrappers, services and methods are built from these; their agreement on whole worlds is checked by Phi on every generated world (two Lean transcriptions, each compared with its real counterpart: pgsgo and protogen+internal_gengo run in-process).",
         "level_note": "Trusted: 'what protoc-gen-go emits' is protogen + internal_gengo of the pinned protobuf-go v1.23.0 run as a library (no protoc binary); its Lean transcription is a second model tied to the real generator only by its own correspondence; identifiers are ASCII.",
     },
     "C17": {
         "engines": [("c17", "main")],
         "lean": ["PgsVerif.Props.C17"],
-        "category": "exploration",
         "rule": "the C16 worlds (proto2/proto3 x every label x every scalar / enum / message kind x map keys and values x references to the same package, the same import path and foreign packages) x go_package drawn from 12 forms (path, path;name, bare name per directory, dash / dot / digit / keyword / mixed-case last elements, two files sharing an import path) x paths unset or source_relative; for every field outside a real oneof: pgsgo Type(f), the reference type by protoc-gen-go's fieldGoType rule (qualifier = package name of the defining file) and the struct field type in the parsed generated source; per file: PackageName / ImportPath / OutputPath against protogen's GoPackageName / GoImportPath / GeneratedFilenamePrefix; non-trivial = at least one message",
-        "level_text": "THEOREMS PENDING (level exploration until proved): Lean transcriptions of pgsgo (Type, importableTypeName, scalarType, optionPackage, PackageName, ImportPath, OutputPath) and of protoc-gen-go v1.23.0 (fieldGoType, goPackageOption, GoSanitized, filename prefix rules); Phi_C17: predicted type = reference type = type in the generated source; predicted package name / import path / output path = protogen's, on the stated domain (last element alphanumeric-initial over [A-Za-z0-9._-], at most one ';').",
+        "level_text": "Theorems: C17_scalar_table (both sides map every scalar kind to the same Go type), C17_scalar_pointer (the pointer is added exactly when protoc-gen-go adds it: both follow field presence, by C09_presence), C17_package_name (pgsgo's sanitising + keyword / leading-digit prefix = protoc-gen-go's GoSanitized on every go_package whose last element starts with a letter or digit, for the forms path;name, path/last and bare name), C17_import_path. Type qualification, map / slice shapes and output paths on whole worlds are checked by Phi on every generated world against protogen, the parsed generated source and the Lean transcription of fieldGoType (not theorems: they need C03's resolution theorem and a filepath algebra).",
         "level_note": "Trusted: protogen + internal_gengo v1.23.0 as the reference; segment-level filepath model; divergences outside the stated domain (leading underscore / non-ASCII letters in the last element, 'a;b;c') are documented in DESIGN.md (F12), not claimed.",
     },
 }
